@@ -139,13 +139,29 @@ func (d *typeDictionary) resolveTypedefs() []error {
 			return a.file < b.file
 		case a.line != b.line:
 			return a.line < b.line
+		case a.col != b.col:
+			return a.col < b.col
 		}
-		return a.col < b.col
+		// Texts handed over under one name can hold typedefs at one
+		// position: their names, then their modules, decide.
+		if tds[i].Name != tds[j].Name {
+			return tds[i].Name < tds[j].Name
+		}
+		return typedefRootName(tds[i]) < typedefRootName(tds[j])
 	})
 	for _, td := range tds {
 		errs = append(errs, td.resolve(d)...)
 	}
 	return errs
+}
+
+// typedefRootName returns the name and revision of the (sub)module whose text
+// holds t, or "" if there is none.
+func typedefRootName(t *Typedef) string {
+	if m := RootNode(t); m != nil {
+		return m.FullName()
+	}
+	return ""
 }
 
 // resolve creates a YangType for t, if not already done.  Resolving t
